@@ -4,12 +4,12 @@ PROP = dict(
     trivial=lambda inp, out: inp.strip().endswith('-'),
     rule='CALL HISTORIES (120 per quick run): a priming Canonical call on a related input (same line or prefix on another board size, an image, the canonical form) immediately before the judged call; legal move sequences: random playouts (slide- and stack-heavy policies), axis games that stay symmetric for many plies and then '
          'leave the axis with a slide, small-board slide-heavy games (positions symmetric from above with different captives), symmetric images '
-         'of games, games with an illegal continuation (outcome only), and ALL games of <= 2 plies (3 thorough) on 3x3 and 4x4. The oracle '
+         'of games, games with an illegal continuation (outcome only), games played under CUSTOM configurations (reduced piece sets: legal under the default configuration too, fully judged; enlarged piece sets and extra capstones on small boards: Canonical, which always replays from the default configuration, must reject them where they use the extra pieces), and ALL games of <= 2 plies (3 thorough) on 3x3 and 4x4. The oracle '
          'checks legality, same length, prefix-image, equal canonical form of all eight images, idempotence. non-trivial = non-empty game',
     assumptions=['no two distinct positions met share a 64-bit hash (Canonical compares boards by hash)'],
 )
 MANIFEST = dict(
-    text="Coq (Properties/C15.v, closed under the global context), all three theorems of DESIGN 5.15 for the model of symmetry.Canonical with the "
+    text="Coq (Properties/C15.v, 16 obligations, closed under the global context), all three theorems of DESIGN 5.15 for the model of symmetry.Canonical with the "
          "real hash basis: (1) canonical_legal_images - when Canonical returns cs for ms, cs has the length of ms and for every k the first k "
          "moves of cs and of ms are legal games by Rules.v from the start position, the canonical one ending in one of the eight images of the "
          "other (so the input is legal too); (2) canonical_class_invariant - it then returns the same cs for each of the eight images of ms; "
@@ -28,5 +28,5 @@ MANIFEST = dict(
                           'differential + independent class-invariance / idempotence oracle (exhaustive on short games)',
     note="Trusted: Coq kernel, extraction, transcription of Canonical. Also proved: Canonical accepts every legal game (canonical_total), so class "
          "invariance holds in the form `legal ms -> canonical (image of ms) = canonical ms`. Hypotheses that remain, all explicit: NoCollision on "
-         "the hashes compared; for sizes 7, 8 no stack above 64 on the boards produced (the representation limit of the code, C01). The model's "
+         "the hashes compared; for sizes 7, 8 no stack above 64 on the boards produced (the representation limit of the code, C01). symmetry.Canonical takes a board size and always replays from tak.New(Config{Size}): there is no configuration to carry over (C15_start_is_zero_config: the model's start position is FromSquares at the zero configuration of TpsCfg.v), unlike symmetry.Symmetries (C14). The model's "
          "Position.Move rejects Pass (the real code accepts it): games with a Pass are outside the theorems, as in C01.")
